@@ -8,7 +8,7 @@ import re
 from ..core import Ctx, RuleResult, finding, short
 from ..model import AnalysisError, norm
 from ..mutants import Mut
-from ..rules import accum, alias, optcall, dim, noop, posbound
+from ..rules import accum, alias, canv, fresh, optcall, dim, noop, posbound
 from ..rules.geom import LOOP_INDEX, ClassGeom
 from ..rules.util import callee_name, lin_str, linear, cfg_of, nodes_where
 from ..tables import C09_DIM_EXCEPTIONS, C09_SIZE_EXCEPTIONS
@@ -28,6 +28,7 @@ EXPLANATION = (
     ' Round-4 triage: (12) Columns hit-testing skips hidden columns like render(); (13) ScrollBar.mouse_event subtracts the bar width from the column under the same side test under which render() draws the bar on the left. Round-5 triage: (14) Padding / Filler forward a mouse event only after a bounds test on every size branch.'
     ' Round 6: (15) ALIAS: the coords / shortcuts dictionaries a canvas edits in place (set_cursor, overlay, _drop_trimmed_cursor) only ever hold an object of its own - CompositeCanvas(canv) sharing canv.coords would write the top widget\'s cursor into the cached bottom canvas; Frame.keypress body size is compared with render (exception removed).'
     ' (16) every screen-order use of ListBox\'s bottom-up fill_above reverses it first; (17) a computed cursor column rejected on one side of the widget is rejected on the other side too.'
+    ' Round 7: (18) FRESHLIST: no in-place edit of a shard list shared with a (cached) child canvas - a child that silently gains padding rows is drawn at another height than rows() / get_cursor_coords work with; (19) HIDDEN-DEP: a rendering that skips a child declares the dependency on every child (shared with C06.8).'
 )
 NOT_DECIDED = (
     "Agreement with the rendered canvas cursor (needs canvas semantics), loops of Pile/Columns/ListBox that accumulate offsets (equivalence of different loop shapes is not syntactic), "
@@ -636,6 +637,8 @@ def run(ctx: Ctx):
         rule_edit_row_range(ctx),
         rule_visible_order(ctx),
         rule_two_sided(ctx),
+        fresh.run_fresh(p, "C09.18", ["urwid.canvas"], floor=30),
+        canv.run_hidden_dep(p, "C09.19", floor=6),
         alias.run_inplace_own(p, "C09.15", ["urwid.canvas"], floor=6, exempt={"shards": "shared on purpose, copy-on-write decided by FRESHLIST (C06.2c)"}),
         optcall.run_optcall(p, "C09.11", ("urwid.widget",), floor=35),
         rule_hidden_columns(ctx),
